@@ -2,6 +2,7 @@
 import math
 import numpy as np
 from hypothesis import strategies as st
+from vlib import strategies as S
 
 from vlib.runner import Outcome, cut, CutError, close
 from vlib import doubles
@@ -32,8 +33,8 @@ REQUIRED = {'ranks>=2': 0.5, 'has-single-sample-rank': 0.15, 'has-empty-rank': 0
 def _vcase(draw):
     shape = draw(st.sampled_from(['scalar', 'scalar', 'vec', 'mat']))
     k = {'scalar': 1, 'vec': 3, 'mat': 4}[shape]
-    n = draw(st.integers(0, 40))
-    nr = draw(st.integers(1, 8))
+    n = draw(S.ints(0, 40))
+    nr = draw(S.ints(1, 8))
     vals = draw(st.lists(st.lists(st.floats(-1.0, 1.0), min_size=k, max_size=k), min_size=n, max_size=n))
     wkind = draw(st.sampled_from(['uniform', 'arbitrary', 'geometric', 'ties', 'tiny']))
     if wkind == 'uniform':
@@ -47,7 +48,7 @@ def _vcase(draw):
         w = [max(r ** i, 1e-300) for i in range(n)]
     else:
         w = draw(st.lists(st.sampled_from([0.5, 0.5, 2.0, 1e-300]), min_size=n, max_size=n))
-    assign = draw(st.lists(st.integers(0, nr - 1), min_size=n, max_size=n))
+    assign = draw(st.lists(S.ints(0, nr - 1), min_size=n, max_size=n))
     return {'shape': shape, 'vals': vals, 'w': w, 'wkind': wkind, 'nranks': nr, 'assign': assign,
             'offset': draw(st.sampled_from([0.0, 1.0, 1e3, -1e6])), 'spread': draw(st.sampled_from([1.0, 1e-3, 1e4]))}
 
